@@ -23,6 +23,7 @@ def dispatch (op : String) (inp imp : Json) : Except String Json :=
   | "history" => opHistory inp imp
   | "configSave" => opConfigSave inp imp
   | "configResolve" => opConfigResolve inp imp
+  | "shape" => opShape inp imp
   | "project" => opProject inp imp
   | _ => .error s!"unknown op {op}"
 
